@@ -6,7 +6,10 @@ use crate::util::Ctx;
 
 pub fn gen(ctx: &mut Ctx) {
     let url = "https://www.example.com";
-    for kind in [Kind::RefFull, Kind::RefNonDisc, Kind::RefForced, Kind::Map, Kind::Slot] {
+    // every capability bare and behind every lock wrapper (a wrapper must report its inner store's capability)
+    for kind in [Kind::RefFull, Kind::RefNonDisc, Kind::RefForced, Kind::Map, Kind::Slot,
+                 Kind::RefArcMutex, Kind::RefArcRwLock, Kind::RefMutex, Kind::RefRwLock, Kind::RefNonDiscArcMutex, Kind::RefNonDiscArcRwLock, Kind::RefNonDiscMutex, Kind::RefNonDiscRwLock,
+                 Kind::RefForcedArcMutex, Kind::RefForcedRwLock, Kind::MapArcMutex, Kind::SlotRwLock] {
         for rk in [None, Some(Rk::Discouraged), Some(Rk::Preferred), Some(Rk::Required)] {
             for rrk in [false, true] {
                 for cp in [None, Some(false), Some(true)] {
@@ -30,14 +33,17 @@ pub fn gen(ctx: &mut Ctx) {
                 run_ccase(ctx, "C11", &w, &[cstep(COp::Reg(r)), cstep(COp::Auth(a))]);
             }
         }
-        // CTAP-level rk directly on the authenticator
-        for rk in [false, true] {
-            let w = World { kind, counter_on: false, id_len: 16, hm: Hm::None, preload: vec![] };
+        // CTAP-level rk directly on the authenticator, without and with signature counters (the counter write-back
+        // re-saves the credential: what is stored must survive it), several assertions in a row
+        for rk in [false, true] { for counter_on in [false, true] {
+            let w = World { kind, counter_on, id_len: 16, hm: Hm::None, preload: vec![] };
             let mut m = simple_make(ctx, "example.com"); m.rk = rk;
             let g = simple_get(ctx, "example.com");
             let mut g2 = simple_get(ctx, "example.com"); g2.allow = Some(vec![b"@last".to_vec()]);
-            run_case(ctx, "C11", &w, &[step(Op::Make(m)), step(Op::Get(g)), step(Op::Get(g2))]);
-            ctx.stat("c11.ctap_rows");
+            let g3 = simple_get(ctx, "example.com");
+            let mut g4 = simple_get(ctx, "example.com"); g4.allow = Some(vec![b"@last".to_vec()]);
+            run_case(ctx, "C11", &w, &[step(Op::Make(m)), step(Op::Get(g)), step(Op::Get(g2)), step(Op::Get(g3)), step(Op::Get(g4))]);
+            ctx.stat("c11.ctap_rows"); }
         }
     }
 }
